@@ -117,6 +117,12 @@ func normalize(c *Case) {
 				k.Kind = "lambda" // the sub graphs of a nested case are named values (op sub)
 			}
 		}
+		if k.Kind == "lamkey" && !(c.FE == "workflow" && k.Op == "addnode") {
+			k.Kind = "lambda" // a lambda with an output key: a node of a top-level Workflow only
+		}
+		if k.In == "fromkey" {
+			k.Fields = nil
+		}
 		if keyedPass(k.Kind) && !(c.FE == "graph" && k.Op == "addnode") {
 			k.Kind = "pass" // keyed pass-through nodes: nodes of a top-level Graph only
 		}
@@ -500,7 +506,11 @@ func (engine) Run(ci any) lib.Result {
 				fail("nondeterministic", fmt.Sprintf("attempt %d: the builder state after call %d differs from attempt 0", r, i))
 			}
 			if a.K != b.K {
-				fail("nondeterministic", fmt.Sprintf("attempt %d: call %d gave %s, attempt 0 gave %s", r, i, b.K, a.K))
+				sig := "nondeterministic"
+				if mappedPassInput(c) && c.Calls[i].Op == "compile" && (a.K == "ok" || b.K == "ok") && (a.K == "err" || b.K == "err") {
+					sig = "wf-pass-mapped-input-order" // known finding F-C20i
+				}
+				fail(sig, fmt.Sprintf("attempt %d: call %d gave %s, attempt 0 gave %s", r, i, b.K, a.K))
 			} else if a.Cls != b.Cls {
 				if wfOrder {
 					classVaries = true // which deferred error is met first depends on Go's map order
@@ -559,6 +569,29 @@ func flag(b bool, t, f string) string {
 
 // modelled: the case is replayed on the model.  Not: a Workflow case when the builder states cannot be read (the order
 // its Compiles took is read off them), a nested case with Workflow children (Model/BuilderNested.v has Graph and Chain children)
+// mappedPassInput: known finding F-C20i (signature wf-pass-mapped-input-order) — a Workflow in which a pass-through
+// node's input is declared with a field mapping out of a node whose output type differs from the type the
+// pass-through node's successors give it (here: FromField on the map of a lamkey node). updateToValidateMap gives an
+// untyped pass-through node the WHOLE output type of such a predecessor, so whether Compile accepts depends on which
+// of the node's edges Workflow.compile declares first (Go's map order over the workflow nodes).
+func mappedPassInput(c *Case) bool {
+	if c.FE != "workflow" {
+		return false
+	}
+	kind := map[string]string{}
+	for _, k := range c.Calls {
+		if k.Op == "addnode" {
+			kind[k.Key] = k.Kind
+		}
+	}
+	for _, k := range c.Calls {
+		if k.Op == "addinput" && k.In == "fromkey" && kind[k.To] == "pass" && kind[k.From] == "lamkey" {
+			return true
+		}
+	}
+	return false
+}
+
 func keyedPass(kind string) bool { return kind == "passk" || kind == "passo" || kind == "passko" }
 
 func modelled(c *Case) bool {
@@ -568,7 +601,7 @@ func modelled(c *Case) bool {
 	// pass-through nodes with an input / output key: the model has one type per case and no keys (typing is
 	// property C07); such cases are judged by the Go-side oracles (no panic, sticky, repeatable, immutable, intact)
 	for _, k := range c.Calls {
-		if keyedPass(k.Kind) {
+		if keyedPass(k.Kind) || k.Kind == "lamkey" || k.In == "fromkey" {
 			return false
 		}
 	}
